@@ -460,7 +460,10 @@ class ESME:
                                 smpp_message.encoding = encoding
                         else:
                             msg: bytes = smpp_message.smpp_encode(smpp_message.short_message)
-                            msg_parts = split_sms(smpp_message.short_message, encoding)
+                            # smpp_encode switches the message to ucs2 if default encoding fails
+                            msg_parts = split_sms(
+                                smpp_message.short_message, smpp_message.encoding or ''
+                            )
                             parts_count = len(msg_parts)
                             if parts_count == 1:
                                 # No splitting needed, set encoded message to avoid re-encoding
